@@ -280,6 +280,9 @@ m("o25-one-byte-datagram-delivered-twice", "C08", "traffic-without-datagram", (E
 	}
 	action := el.eventHandler.OnTraffic(c)
 	if c.remote != nil {"""))
+m("o26-eventloop-enroll-goes-through-the-balancer", "C05", "enrolled-on-other-loop", (EL,
+  """	return el.enroll(c, c.RemoteAddr(), FromContext(ctx))""",
+  """	return el.engine.eventLoops.next(c.RemoteAddr()).enroll(c, c.RemoteAddr(), FromContext(ctx))"""))
 
 
 def main():
